@@ -1386,8 +1386,13 @@ func (e *Entry) FixChoice() {
 					// and the member's own applies to the member
 					// only, not to what is augmented in beside it.
 					Prefix: ce.Prefix,
-					Dir:    map[string]*Entry{ce.Name: ce},
-					Extra:  map[string][]interface{}{},
+					// The case stands for the member's own
+					// statement: it belongs to the module whose
+					// text placed the member, which for a member
+					// brought by an augment is the augmenting one.
+					namespace: ce.namespace,
+					Dir:       map[string]*Entry{ce.Name: ce},
+					Extra:     map[string][]interface{}{},
 				}
 				ce.Parent = ne
 				e.Dir[k] = ne
